@@ -62,6 +62,9 @@ pub enum Op {
         /// not retry must report it)
         #[serde(default)]
         interrupted: bool,
+        /// the fault repeats on this many further device calls in a row
+        #[serde(default)]
+        burst: u8,
     },
 }
 
@@ -578,7 +581,8 @@ impl<'a> Run<'a> {
         if self.sess.is_none() {
             return Ok(());
         }
-        if let Op::FaultNext { k, hold, interrupted } = op {
+        if let Op::FaultNext { k, hold, interrupted, burst } = op {
+            let burst = *burst as u64;
             let k = *k as u64;
             let intr = *interrupted;
             self.dev.with(|d| {
@@ -587,6 +591,7 @@ impl<'a> Run<'a> {
                 d.fired = None;
                 d.fail_kind = None;
                 d.fail_interrupted = intr;
+                d.fail_burst = burst;
             });
             self.fault_hold = *hold as u32;
             self.trace.hit("fault_armed");
@@ -1429,6 +1434,7 @@ impl<'a> Run<'a> {
             d.fired = None;
             d.fail_kind = None;
             d.fail_interrupted = interrupted;
+            d.fail_burst = 0;
         });
         let free_before = self.free_now();
         let first = self.call(&what, |s| session::file_write(s.files[k].as_mut().unwrap(), &buf))?;
@@ -1680,6 +1686,7 @@ impl<'a> Run<'a> {
             d.fired = None;
             d.fail_kind = None;
             d.fail_interrupted = interrupted;
+            d.fail_burst = 0;
         });
         let first = self.call("flush with a transient fault", |s| session::file_flush(s.files[k].as_mut().unwrap()))?;
         let fired = self.dev.with(|d| {
@@ -1858,7 +1865,8 @@ impl<'a> Run<'a> {
         let queried = self.stats_queried;
         let by_drop = how % 2 == 1;
         // C05: power cut in the middle of the unmount (every prefix of its device writes), see below
-        let watch_unmount = self.cfg.wants(Aspect::Stats) && !self.crash;
+        let watch_order = self.cfg.wants(Aspect::Dirty) && self.cfg.dirty && !self.crash;
+        let watch_unmount = (self.cfg.wants(Aspect::Stats) || watch_order) && !self.crash;
         let pre_unmount = if watch_unmount { Some(self.dev.snapshot()) } else { None };
         let wlog_before = self.dev.with(|d| {
             if watch_unmount {
@@ -1888,7 +1896,12 @@ impl<'a> Run<'a> {
                 d.log_data = false;
                 d.wlog.split_off(wlog_before)
             });
-            self.unmount_crash_points(pre, &writes)?;
+            if watch_order {
+                self.unmount_write_order(&pre, &writes)?;
+            }
+            if self.cfg.wants(Aspect::Stats) {
+                self.unmount_crash_points(pre, &writes)?;
+            }
         }
         self.after_unmount_checks(free, queried)?;
         self.trace.hit(if by_drop { "remount_by_drop" } else { "remount" });
@@ -1897,6 +1910,27 @@ impl<'a> Run<'a> {
             self.checkpoint("after remount")?;
         }
         Ok(true)
+    }
+
+    /// C12: the dirty bit stays set "until the volume is unmounted": the write that clears it is the last thing an
+    /// unmount hands to the storage. If a later write of the same unmount still changes the image (the FS-info sector,
+    /// say), a power cut between the two leaves a volume that claims to be cleanly unmounted and is not.
+    fn unmount_write_order(&mut self, pre: &Store, writes: &[(u64, Vec<u8>)]) -> VResult<()> {
+        let st = self.geom.status_off();
+        let Some(j) = writes.iter().position(|(o, d)| *o <= st && st < *o + d.len() as u64 && (d[(st - *o) as usize] & 1) == 0 && (refdec::rd8(pre, st) & 1) == 1) else { return Ok(()) };
+        let mut img = pre.clone();
+        for (o, d) in &writes[..=j] {
+            img.write_at(*o, d);
+        }
+        for (i, (o, d)) in writes.iter().enumerate().skip(j + 1) {
+            let cur = refdec::rdv(&img, *o, d.len());
+            if cur != *d {
+                return Err(self.viol(Aspect::Dirty, format!("unmount cleared the dirty bit with its device write {} of {} and then still changed {} bytes at offset {} (write {}): a power cut in between leaves a volume marked clean whose unmount was not complete", j + 1, writes.len(), d.len(), o, i + 1)));
+            }
+            img.write_at(*o, d);
+        }
+        self.trace.hit("unmount_write_order_checked");
+        Ok(())
     }
 
     /// C05: "the count reported by the statistics call ALWAYS equals the number of free entries in the on-disk table".
